@@ -1,0 +1,26 @@
+// Copyright 2021 TiKV Project Authors.
+//
+// Licensed under the Apache License, Version 2.0 (the "License");
+// you may not use this file except in compliance with the License.
+// You may obtain a copy of the License at
+//
+//     http://www.apache.org/licenses/LICENSE-2.0
+//
+// Unless required by applicable law or agreed to in writing, software
+// distributed under the License is distributed on an "AS IS" BASIS,
+// See the License for the specific language governing permissions and
+// limitations under the License.
+
+//go:build verif
+// +build verif
+
+// Assumed contracts for the B-tree (checked by nothing here: the B-tree's node algorithms are the trusted base of
+// the key index; comment-only file). Abstract view: bthas[t][x] -- item x (the pointer stored in the Item
+// interface) is in tree t.
+package btree
+
+//@ func New
+//@   assumed
+//@   ensures result != nil && !old(allocated(result)) && allocated(result)
+//@   ensures forall x :: {bthas[result][x]} !bthas[result][x]
+//@   modifies nothing
